@@ -65,11 +65,20 @@ func c05TimersRun(c c05TimerCase) (out [][2]string) {
 			}
 		}
 		cancel()
-		select {
-		case <-done:
-		case <-time.After(30 * time.Second):
-			out = append(out, [2]string{"C05:timers:loop-did-not-stop", fmt.Sprintf("%s: session %d: the loop did not stop within 30 s of cancellation", ev.JSON(c), si)})
-			return out
+		// Keep taking requests until the loop has returned: its send is a plain blocking send
+		// (in production the scheduler's buffered channel takes it), so a request it was
+		// about to hand over when the session ended must still be accepted.
+		deadline := time.After(60 * time.Second)
+	drain:
+		for {
+			select {
+			case <-done:
+				break drain
+			case <-ipC:
+			case <-deadline:
+				out = append(out, [2]string{"C05:timers:loop-did-not-stop", fmt.Sprintf("%s: session %d: the loop did not stop within 60 s of cancellation although its requests were being taken", ev.JSON(c), si)})
+				return out
+			}
 		}
 		if si < len(c.Pause) {
 			time.Sleep(c.Pause[si])
@@ -82,7 +91,7 @@ func TestVerifC05Timers(t *testing.T) {
 	r := ev.Begin("C05", "timers")
 	defer r.End(t)
 	r.Rule = "real time, module-default GODEBUG (pre-1.23 timer channels): one Advertiser value (min=max=1s) running its unsolicited loop in 2-3 consecutive sessions; sessions ended 0.3 s / 1.3 s into a wait, pauses of 0.2 s / 1.5 s / 2.5 s before the next session (9 scripts, run concurrently); oracle (sound against slow machines): for consecutive requests of a session, time read after request k+1 was taken minus time read before request k was awaited >= min; the loop stops on cancellation; non-trivial = every script"
-	r.Assumptions = []string{"wall-clock test: only lower bounds that scheduling delays cannot violate are asserted; liveness deadline 30 s"}
+	r.Assumptions = []string{"wall-clock test: only lower bounds that scheduling delays cannot violate are asserted; liveness deadline 60 s"}
 	if !c05MulticastSig() {
 		r.Capped("Advertiser.multicast no longer has the signature (context.Context, chan<- netip.Addr): part skipped")
 		return
